@@ -25,14 +25,19 @@ GARBAGE = '%%%'          # neither blank, comment, header, assignment nor key: v
 #   ('gvar', name, expr) ('hdr', name) ('filter', e) ('desc', d) ('svar', name, e)       views
 VALID_EXPRS = ['contains("NETFLIX")', 'amount > 100', 'regex("UBER\\s*EATS") and month == 12', 'is_large',
                'description == "x=1"', '"a:b" in description', 'contains("CAFÉ")', 'anyof("A", "B")',
-               'amount > 5 and not contains("X")', 'x', '(amount)', 'field.memo == "q"', '1']
+               'amount > 5 and not contains("X")', 'x', '(amount)', 'field.memo == "q"', '1',
+               # '#' is an ordinary character of a value: inside a literal, and as a Python comment tail kept verbatim
+               'contains("SHELL #12")', 'amount > 5 # large', '"#" in description', "contains('A # B') or amount > 1 #x"]
 INVALID_EXPRS = ['contains(', ')(', 'amount >', 'lambda: 1', 'x = 1', '"abc', 'a b', '[i for i in x if]', 'import os']
 VIEW_EXPRS = ['total > 100', 'months >= 6', 'category == "Food" and cv < 0.5', 'sum(payments) / 12', 'is_frequent',
-              '"a:b" in tags', 'x == "p=q"', 'count(payments) > 1', '1']
-NAMES = ['Netflix', 'Large Purchase', 'A-1', 'Café', 'x]y', 'a:b', 'q = 1', 'Uber Eats', 'Z']
-VNAMES = ['Big', 'Every Month', 'A-1', 'Café', 'a:b', 'q = 1', 'Z z']
-CATS = ['Food', 'Food: Drink', 'A = B', 'Subscriptions', 'Cafés', 'x#y']
-TAGS = ['a, b', 'fun(x,y), z', 'a,,b', '{field.x}, k', 'one', 'a, a, B', 'f(a, g(b, c)), d)e, f']
+              '"a:b" in tags', 'x == "p=q"', 'count(payments) > 1', '1',
+              'merchant == "SHELL #12"', "'#' in merchant", 'total > 1 # big ones', 'total > 1 #x', 'months >= 2  #  "quoted" tail']
+NAMES = ['Netflix', 'Large Purchase', 'A-1', 'Café', 'x]y', 'a:b', 'q = 1', 'Uber Eats', 'Z', 'Store #12', '#1', 'A # B', 'Shop #']
+VNAMES = ['Big', 'Every Month', 'A-1', 'Café', 'a:b', 'q = 1', 'Z z', 'Account #2', '#1', 'A # B', 'Top #', 'x#y']
+CATS = ['Food', 'Food: Drink', 'A = B', 'Subscriptions', 'Cafés', 'x#y', 'A #1', 'Food # Drink', '#1', 'Aisle #']
+TAGS = ['a, b', 'fun(x,y), z', 'a,,b', '{field.x}, k', 'one', 'a, a, B', 'f(a, g(b, c)), d)e, f', 'a #1, b', '#x, y #', 'k, # , z']
+DESCS = ['All of it', 'a: b', 'x = y', 'Café visits', 'Our #1 budget line (rent)', 'Shell station #12 and the like', '#1', 'tail #',
+         'say "hi" to #2', 'a  #  b']
 IDENTS = ['x', 'is_large', 'Big1', '_t', 'field', 'q_2']
 WS_LEAD = ['', ' ', '    ', '\t', ' \t ', '\x0c', '\x0b ']
 WS_TRAIL = [' ', '   ', '\t', ' \t', '\r', '\x0c']
@@ -81,7 +86,7 @@ def gen_v_items(rnd, nsec=None):
         items.append(('hdr', rnd.choice(VNAMES)))
         body = [('filter', rnd.choice(VIEW_EXPRS))]
         if rnd.random() < 0.5:
-            body.append(('desc', rnd.choice(['All of it', 'a: b', 'x = y', 'Café visits'])))
+            body.append(('desc', rnd.choice(DESCS)))
         for n in rnd.sample(IDENTS + ['1a'], rnd.choice([0, 0, 1, 2])):
             body.append(('svar', n, rnd.choice(VIEW_EXPRS)))
         rnd.shuffle(body)
